@@ -255,6 +255,19 @@ pub fn weight(r: &mut Rng, n: usize, thorough: bool, out: &mut Out) {
     for b in std_near_misses(r, thorough) {
         emit_w(out, &b);
     }
+    // programs longer than 2^16 instructions with two loops 65535, 65536 and 65537 instructions apart, the heavy one first
+    // or last (positions are not 16-bit quantities, though jump and loop operands are)
+    for gap in [65535usize, 65536, 65537] {
+        for heavy_first in [true, false] {
+            let (l1, l2) = if heavy_first { (Loop(60000, 2), Loop(1, 1)) } else { (Loop(1, 2), Loop(60000, 1)) };
+            let mut ops = vec![PushI(0u8.into()), l1, PushI(1u8.into()), Add];
+            // the first loop stands at index 1, the second at index 1 + gap
+            ops.extend(std::iter::repeat(Noop).take(gap - 3));
+            ops.push(l2);
+            ops.push(Noop);
+            emit_w(out, &Covenant::from_ops(&ops).to_bytes());
+        }
+    }
     for op in vmgen::all_ops(r) {
         if let Ok(b) = catch_unwind(|| Covenant::from_ops(&[op.clone()]).to_bytes()) {
             emit_w(out, &b);
